@@ -535,11 +535,23 @@ def _nested(fi_node, name):
     return None
 
 
-def _ref_nodes(fnode):
+def _ref_nodes(fi):
+    """literal lists/tuples of 3-tuples used in the function, directly or through a module-level name bound once"""
     out = []
-    for n in ast.walk(fnode):
-        if isinstance(n, ast.List) and n.elts and all(isinstance(x, ast.Tuple) and len(x.elts) == 3 for x in n.elts):
+    consts = {}
+    for st in fi.module.tree.body:
+        if isinstance(st, ast.Assign) and len(st.targets) == 1 and isinstance(st.targets[0], ast.Name):
+            consts.setdefault(st.targets[0].id, []).append(st.value)
+
+    def triple_list(n):
+        return isinstance(n, (ast.List, ast.Tuple)) and len(n.elts) > 1 and all(
+            isinstance(x, ast.Tuple) and len(x.elts) == 3 and all(isinstance(const_value(c), (int, float)) for c in x.elts)
+            for x in n.elts)
+    for n in ast.walk(fi.node):
+        if triple_list(n):
             out.append((n, [tuple(const_value(c) for c in x.elts) for x in n.elts]))
+        elif isinstance(n, ast.Name) and isinstance(n.ctx, ast.Load) and len(consts.get(n.id, [])) == 1 and triple_list(consts[n.id][0]):
+            out.append((n, [tuple(const_value(c) for c in x.elts) for x in consts[n.id][0].elts]))
     return out
 
 
@@ -723,7 +735,7 @@ def _r2_jacobian(ctx):
                                                                    jvar, kvar, avar))
         # reference node lists
         if shape == "hexahedral":
-            l1, l2 = _ref_nodes(comp.node), _ref_nodes(single.node)
+            l1, l2 = _ref_nodes(comp), _ref_nodes(single)
             if len(l1) != 1 or len(l2) != 1:
                 raise AnalysisError("hexahedral: reference node lists not found")
             if l1[0][1] != l2[0][1]:
